@@ -247,6 +247,10 @@ def check_chain(mtjs, fmts, dev=None):
     src_enc = dev.get('src_enc')
     dest_enc = dev.get('dest_enc')
     text = encode(mts, fmts[0])
+    if dev.get('src_layout'):
+        lay = dict(dev['src_layout'])
+        text = (codecs.encode_export(mts, version=3 if fmts[0] == 'export3' else 4, **lay) if fmts[0].startswith('export')
+                else codecs.encode_brackets(mts, **lay))
     if fmts[0] == 'tigerxml' and src_enc:
         text = codecs.encode_tigerxml(mts, encoding=src_enc)
     path = os.path.join(d, 'f0.' + EXT[fmts[0]])
@@ -653,6 +657,12 @@ def run_chunk(chunk):
                 devs.append((nbsp, ['tigerxml', dest], {}))
             devs.append((nbsp, ['tigerxml', 'discobrackets', 'tigerxml'], {}))
             devs.append((nbsp, ['tigerxml', 'brackets', 'discobrackets'], {}))
+            # optional columns / comments in export sources; Penn-style empty root label with the gf writer option
+            for dest in DEST:
+                devs.append((P[:3], ['export3', dest], {'src_layout': {'secedges': True, 'comments': True}}))
+                devs.append((P[:3], ['export4', dest], {'src_layout': {'secedges': True}}))
+            for dest in ('brackets', 'discobrackets', 'export3'):
+                devs.append((Pc[:3], ['brackets', dest], {'src_layout': {'empty_root': True}, 'dest_opts': ['gf']}))
             devs.append((P, ['export3', 'brackets'], {'dest_opts': ['brackets_skipdisco']}))
             devs.append((P, ['tigerxml', 'brackets'], {'dest_opts': ['brackets_skipdisco']}))
             for corp, fmts, dev in devs:
